@@ -79,6 +79,27 @@ Definition csimple_denote (b : list N) : option N :=
       else None
   end.
 
+(* reference decoders on a byte stream (what the formats say a reader does):
+   accumulate 7-bit groups while the continuation bit is set, at most 8 of
+   them; a ninth byte is taken whole.  Result (bytes consumed, value). *)
+Fixpoint ch_loop (room : nat) (acc n : N) (z : list N) : N * N :=
+  match room with
+  | O => (n + 1, acc * 256 + hd 0 z)
+  | S r => let b := hd 0 z in
+           if b <? 128 then (n + 1, acc * 128 + b)
+           else ch_loop r (acc * 128 + (b - 128)) (n + 1) (tl z)
+  end.
+Definition chained_decode (z : list N) : N * N := ch_loop 8 0 0 z.
+
+Fixpoint cs_loop (room : nat) (z : list N) : N * N :=
+  match room with
+  | O => (1, hd 0 z)
+  | S r => let b := hd 0 z in
+           if b <? 128 then (1, b)
+           else let q := cs_loop r (tl z) in (fst q + 1, (b - 128) + 128 * snd q)
+  end.
+Definition csimple_decode (z : list N) : N * N := cs_loop 8 z.
+
 (* per-length maxima: 2^(7k) - 1 for k <= 8, 2^64 - 1 for 9 *)
 Definition chained_max (k : N) : N :=
   match k with
@@ -87,4 +108,5 @@ Definition chained_max (k : N) : N :=
   | 9 => 18446744073709551615 | _ => 0
   end.
 
-(* EXTRACT: chained_spec csimple_spec chained_denote csimple_denote chained_spec_len chained_max *)
+(* EXTRACT: chained_spec csimple_spec chained_denote csimple_denote chained_spec_len chained_max
+   chained_decode csimple_decode *)
